@@ -148,12 +148,17 @@ _SA_DIGEST = [None]
 
 
 def _cache_path(P, pid, tier):
-    """Opt-in (VERIF_IMPORT_CACHE=<dir>) cache of an owner property's result for one exact program: the key covers the
-    analysed package sources, the specification and setup.py, and the sources of the analysis itself.  Used by the
-    sensitivity audit, where all 20 checks meet the same patched tree; never enabled by the registered commands."""
+    """Cache of an owner property's result for one exact program, so that the checks that import its rules do not each
+    repeat its analysis: the key covers the analysed package sources, the specification and setup.py, the sources of the
+    analysis itself and the known-findings file.  A check's *own* rules are always computed afresh; only imported results
+    are reused (the evidence says which).  Directory: $VERIF_IMPORT_CACHE, default <tmp>/verif-import-cache-<uid>;
+    VERIF_IMPORT_CACHE=off disables it.  Nothing depends on the cache being there."""
     d = os.environ.get('VERIF_IMPORT_CACHE')
-    if not d:
+    if d in ('off', '0', 'no'):
         return None
+    if not d:
+        import tempfile
+        d = os.path.join(tempfile.gettempdir(), 'verif-import-cache-%d' % os.getuid())
     import hashlib
     if _SA_DIGEST[0] is None:
         h = hashlib.sha256()
@@ -220,6 +225,7 @@ def imported_rules(P, rep, rid, tier, pid, consequence, only=None):
     if key not in _IMPORT_CACHE:
         cached = _disk_cache_get(P, pid, tier)
         if cached is not None:
+            rep.extra.setdefault('imported_results_reused_from_cache', []).append(pid)
             sub = Report(pid, tier, P)
             sub.violations = cached['violations']
             sub.rules = cached['rules']
